@@ -137,7 +137,13 @@ class EnsembleEvaluator:
     ) -> tuple[FunctionResults, ...]:
         if variables.ndim == 1:
             variables = variables[np.newaxis, :]
-        active_objectives, active_constraints = _get_active_realizations(self._config)
+        # Realization filters rank all realizations by their function values,
+        # hence none of them can be skipped when filters are used:
+        active_objectives, active_constraints = (
+            (None, None)
+            if self._realization_filters
+            else _get_active_realizations(self._config)
+        )
         function_results = tuple(
             self._calculate_one_set_of_functions(f_eval_results, variables[idx, :])
             for idx, f_eval_results in _get_function_results(
@@ -299,7 +305,13 @@ class EnsembleEvaluator:
         perturbed_variables = _perturb_variables(
             self._config, variables, self._samplers
         )
-        active_objectives, active_constraints = _get_active_realizations(self._config)
+        # Realization filters rank all realizations by their function values,
+        # hence none of them can be skipped when filters are used:
+        active_objectives, active_constraints = (
+            (None, None)
+            if self._realization_filters
+            else _get_active_realizations(self._config)
+        )
         f_eval_results, g_eval_results = _get_function_and_gradient_results(
             self._config,
             self._transforms,
